@@ -21,16 +21,19 @@ MANIFEST = dict(
          "lookup / static-file exclusion / url-host-remoteip scoped rules / path-info split and second "
          "access check / mod_extforward (X-Forwarded-For and Forwarded walks, trust of the TCP peer), "
          "composed with the request-target canonicalisation model: decisions are functions of the "
-         "canonical path only, are case-folded under force-lowercase-filenames, a protected file is "
-         "refused under every spelling that resolves to it, prefix rules survive path-info, the client "
-         "address changes only for trusted peers and then to the right-most untrusted hop; model tied "
-         "to the C (real config parser, real plugin dispatch, real http_response_handler on a real "
-         "directory tree) by differential runs under ASan/UBSan",
+         "canonical path only, are case-folded under force-lowercase-filenames, a file the rules refuse "
+         "at its own URL is refused under every spelling that resolves to it, prefix rules survive "
+         "path-info, the client address changes only for trusted peers and then to the right-most "
+         "untrusted hop; model tied to the C (real config parser, real plugin dispatch, real "
+         "http_response_handler on a real directory tree; thorough: real server over sockets, h1+h2) by "
+         "differential runs under ASan/UBSan with a reference rule evaluator as property oracle",
     note="trusted: Lean kernel, hand-written model validated by the h_access correspondence, libc "
-         "inet_pton/getaddrinfo and PCRE2 external (modelled / generator subset), condition cache "
-         "soundness is C14's; known design limits are stated as theorems (url conditions are not "
-         "case-folded; conditions guarding auth.require are not re-evaluated after the path-info split)",
-    tech="Lean 4 proof over hand-written model + differential correspondence (in-process C harness)",
+         "inet_pton/getaddrinfo and PCRE2's UTF-8 check modelled and validated, condition cache soundness "
+         "is C14's, credential checking is C16's; three upstream design limits that contradict the "
+         "property as stated are Lean counterexample theorems and known findings KF2-KF4 "
+         "(known:L1-/L2-/L3-): regex conditions vs non-UTF-8 path-info, case-sensitive url conditions "
+         "under force-lowercase, auth.require conditions not re-evaluated after the path-info split",
+    tech="Lean 4 proof over hand-written model + differential correspondence (in-process C harness, e2e)",
     ref="6/C03")
 
 hx = C.hx
